@@ -178,7 +178,7 @@ func (s *Super) runBatch(b batch) *Agg {
 		cmd.Stderr = logf
 		cmd.Env = append(os.Environ(), "GOTRACEBACK=all", "VERIF_SCRATCH="+s.Dir)
 		if s.Prop.Race {
-			cmd.Env = append(cmd.Env, "GORACE=halt_on_error=0 history_size=3 log_path="+out+".race")
+			cmd.Env = append(cmd.Env, "GORACE=halt_on_error=0 exitcode=0 history_size=3 log_path="+out+".race")
 		}
 		timedOut := false
 		err = cmd.Start()
